@@ -61,8 +61,9 @@ func zzH_C18w() {
 	})
 }
 
-// zzH_C18f: fail-over: two live targets, one starts refusing connections: after one detector round it
-// receives no further calls while the other is healthy, and is used again after it recovers.
+// zzH_C18f: fail-over and recovery. Two live targets; one starts refusing connections and is hit by
+// calls; once a detector round has probed it again it must be out of the live list (so calls only reach
+// the healthy target); after it recovers and is probed successfully it is used again.
 func zzH_C18f() {
 	rt := &zzRT{up: map[string]bool{"a": true, "b": true}}
 	c := NewClient(nil)
@@ -71,40 +72,87 @@ func zzH_C18f() {
 	c.Update("a", "b")
 	vSetClockStep(1)
 	vSetTimerBudget(vParam("c18.ticks", 3))
-	vQuiesce() // let the detector find both targets
+	vSetOneShotTimers(false)
+	vQuiesce() // the detector finds both targets
 	if len(c.list) != 2 {
-		return // detector has not run yet on this schedule: nothing to check
+		return // no detector round happened on this schedule: nothing to check
 	}
 	rt.up["b"] = false
-	// calls that hit b fail with ErrDial; each such failure marks b dead; the next detector round drops it
-	for i := 0; i < 2; i++ {
+	hitB := false
+	for i := 0; i < 3; i++ {
+		n := len(rt.calls)
 		c.Call("S.M", nil, nil)
-	}
-	vQuiesce()
-	c.lock.Lock()
-	bDead := !c.targets["b"].alive
-	inList := false
-	for _, t := range c.list {
-		if t.address == "b" {
-			inList = true
+		if len(rt.calls) > n && rt.calls[n] == "b" {
+			hitB = true
 		}
 	}
-	c.lock.Unlock()
-	if bDead {
+	if !hitB {
+		return // the policy never picked b: it was not marked down by a call
+	}
+	p0 := len(rt.pings)
+	vQuiesce()
+	probedB := false
+	for _, a := range rt.pings[p0:] {
+		if a == "b" {
+			probedB = true
+		}
+	}
+	if probedB {
+		// b was marked down by the failed call and has been probed (and failed) since
+		n := len(rt.calls)
+		for i := 0; i < 3; i++ {
+			err := c.Call("S.M", nil, nil)
+			vAssert(err == nil, "calls-succeed-while-another-target-is-healthy")
+		}
+		for _, a := range rt.calls[n:] {
+			vAssert(a == "a", "refusing-target-receives-no-calls-after-detection")
+		}
+		// recovery
+		rt.up["b"] = true
+		p1 := len(rt.pings)
 		vQuiesce()
-		c.lock.Lock()
-		stillListed := false
-		for _, t := range c.list {
-			if t.address == "b" {
-				stillListed = true
+		again := false
+		for _, a := range rt.pings[p1:] {
+			if a == "b" {
+				again = true
 			}
 		}
-		c.lock.Unlock()
-		_ = stillListed
+		if again {
+			c.lock.Lock()
+			n2 := len(c.list)
+			c.lock.Unlock()
+			vAssert(n2 == 2, "recovered-target-is-used-again")
+		}
 	}
-	_ = inList
 	c.Close()
 	vReach("end")
+}
+
+// zzH_C20cl: Close of a Client with Fallback pauses outstanding (pauses are long: one-shot timers
+// never fire): the detector goroutine and every Fallback goroutine must exit; repeated Close returns
+// nil.
+func zzH_C20cl() {
+	rt := &zzRT{up: map[string]bool{"a": true}}
+	c := NewClient(nil)
+	c.Transport = rt
+	c.Update("a")
+	vSetClockStep(1)
+	vSetTimerBudget(1)
+	vSetOneShotTimers(false)
+	k := vChoose("fallbacks", 3)
+	for i := 0; i < k; i++ {
+		c.Fallback(time.Hour)
+	}
+	if vChoose("settle", 2) == 1 {
+		vQuiesce()
+	}
+	vAssert(c.Close() == nil, "close-returns-nil")
+	vAssert(c.Close() == nil, "second-close-nil")
+	vAtEnd(func() {
+		vAssert(vBlocked() == 0, "all-goroutines-exit-after-close")
+		vAssert(rt.closed >= 1, "transport-closed")
+		vReach("end")
+	})
 }
 
 // zzH_C18c: Close against callers that are about to wait. DialTimeout is modelled as "very long"
